@@ -126,6 +126,22 @@ def canary_run(unit, only=None):
     return True, vac, None
 
 
+_CMD_CACHE = {}
+
+
+def _run_cached(cmd, timeout):
+    """one check run asks for the same witness command once (several failing labels of a unit share it)"""
+    if cmd in _CMD_CACHE:
+        return dict(_CMD_CACHE[cmd], cached=True)
+    try:
+        p = subprocess.run(cmd, shell=True, cwd=VERIF, capture_output=True, text=True, timeout=timeout)
+        ent = dict(cmd=cmd, rc=p.returncode, stdout=p.stdout[-4000:], stderr=p.stderr[-1000:])
+    except Exception as e:
+        ent = dict(cmd=cmd, rc=2, error=str(e))
+    _CMD_CACHE[cmd] = ent
+    return ent
+
+
 def witness_search(prop, unit, fn, label):
     """look for a concrete failing input on the real compiled code"""
     rules = load_json(os.path.join(VERIF, "witness.json"), [])
@@ -141,12 +157,7 @@ def witness_search(prop, unit, fn, label):
             cmd = tmpl
             for i, g in enumerate(m.groups(), 1):
                 cmd = cmd.replace("{%d}" % i, g or "")
-            try:
-                p = subprocess.run(cmd, shell=True, cwd=VERIF, capture_output=True, text=True,
-                                   timeout=rule.get("timeout", 1200))
-                ent = dict(cmd=cmd, rc=p.returncode, stdout=p.stdout[-4000:], stderr=p.stderr[-1000:])
-            except Exception as e:
-                ent = dict(cmd=cmd, rc=2, error=str(e))
+            ent = _run_cached(cmd, rule.get("timeout", 1200))
             tried.append(ent)
             if ent.get("rc") == 1:
                 return dict(found=True, cmd=cmd, failing_input=ent["stdout"].strip(), tried=tried)
@@ -167,11 +178,7 @@ def unit_witness(unit):
         if rule.get("unit") != unit:
             continue
         for cmd in rule["cmds"]:
-            try:
-                p = subprocess.run(cmd, shell=True, cwd=VERIF, capture_output=True, text=True, timeout=rule.get("timeout", 1200))
-                ent = dict(cmd=cmd, rc=p.returncode, stdout=p.stdout[-4000:], stderr=p.stderr[-1000:])
-            except Exception as e:
-                ent = dict(cmd=cmd, rc=2, error=str(e))
+            ent = _run_cached(cmd, rule.get("timeout", 1200))
             tried.append(ent)
             if ent.get("rc") == 1:
                 return dict(found=True, cmd=cmd, failing_input=ent["stdout"].strip(), tried=tried)
